@@ -15,14 +15,27 @@ package orderedmap
 //@ absdef omhas(m, k) = m.pairs != nil && mhas(m.pairs, k)
 //@ ufun omnonempty(Int) Bool
 
-// pairs are handed out as references (possibly nil)
-//@ heapobj Pair
+// pairs are handed out as references (possibly nil) into a read-only heap; their key and value are functions of the
+// reference
+//@ ufun pairkey(Int) Int
+//@ ufun pairvalue(Int) Int
+//@ heapobj Pair Key=pairkey Value=pairvalue
 
 //@ func (*OrderedMap[K, V]).Contains
 //@   props C51
 //@   requires om != nil
 //@   nofail
 //@   ensures[C51] iff(result, omhas(om, key))
+
+// representation invariant used by Get (Set stores a freshly allocated pair; not verified here): no present key
+// is mapped to a nil pair
+//@ spec ominv(m) = all(k, mhas(m.pairs, k) ==> mget(m.pairs, k) != 0)
+//@ func (*OrderedMap[K, V]).Get
+//@   props C51
+//@   requires om != nil && ominv(om)
+//@   nofail
+//@   ensures[C51] iff(result1, omhas(om, key))
+//@   ensures[C51] result1 ==> result0 == pairvalue(mget(om.pairs, key))
 
 //@ func (*OrderedMap[K, V]).GetPair
 //@   props C51
